@@ -144,10 +144,18 @@ def gen_key(rng, enc):
     return rng.choice(al[k])
 
 
+SIGN_PLAY = [["char", "-"], ["char", "-"], ["key", "home"], ["key", "left"], ["key", "right"], ["key", "end"], ["char", "0"], ["char", "7"],
+             ["char", "."], ["char", ","], ["key", "backspace"], ["key", "delete"]]  # fmt: skip
+
+
 def gen_ops(rng, enc, width, n, numeric=False):
     ops = []
+    sign_play = numeric and rng.random() < 0.35  # short alphabet around the sign / separator / zeros
     for _ in range(n):
         r = rng.random()
+        if sign_play and r < 0.85:
+            ops.append(list(rng.choice(SIGN_PLAY)))
+            continue
         if r < 0.33:
             ch = rng.choice(NUM_ODD_KEYS) if numeric else gen_key(rng, enc)
             if numeric and rng.random() < 0.5:
